@@ -31,6 +31,7 @@
 #include <primesieve/EratBig.hpp>
 #include <primesieve/MemoryPool.hpp>
 #include <primesieve/Wheel.hpp>
+#include <primesieve/PreSieve.hpp>
 #include <sys/wait.h>
 
 #include <cerrno>
@@ -1381,6 +1382,47 @@ int streamCross(std::istream& in)
   return 0;
 }
 
+// --------------------------------------------------------------------------------------------
+// presieve: PreSieve::preSieve(sieve, segmentLow) on a sieve of `bytes` bytes
+//   op: presieve <segmentLow> <bytes>
+// --------------------------------------------------------------------------------------------
+int streamPreSieve(std::istream& in)
+{
+  static const int off[8] = { 7, 11, 13, 17, 19, 23, 29, 31 };
+  static const int ps[] = { 7, 11, 13, 17, 19, 23, 29, 31, 37, 41, 43, 47, 53, 59, 61, 67, 71, 73, 79, 83, 89, 97, 101, 103,
+                            107, 109, 113, 127, 131, 137, 139, 149, 151, 157, 163 };
+  std::string line;
+  while (std::getline(in, line))
+  {
+    auto t = split(line);
+    if (t.empty() || t[0][0] == '#')
+      continue;
+    if (t[0] != "presieve" || t.size() < 3) { std::cerr << "bad op: " << line << "\n"; return 2; }
+    uint64_t low = u64(t[1]), n = u64(t[2]);
+    primesieve::Vector<uint8_t> sieve;
+    sieve.resize(n);
+    std::fill(sieve.begin(), sieve.end(), (uint8_t) 0);
+    primesieve::PreSieve::preSieve(sieve, low);
+    std::string text;
+    uint64_t bad = 0;
+    for (uint64_t j = 0; j < n; j++)
+    {
+      text += std::to_string((int) sieve[j]) + ",";
+      for (int b = 0; b < 8; b++)
+      {
+        unsigned __int128 x = (unsigned __int128) low + 30 * j + off[b];
+        bool keep = true;
+        for (int p : ps) if (x % p == 0 && x != (unsigned) p) { keep = false; break; }
+        if (keep != (((sieve[j] >> b) & 1) != 0)) bad++;
+      }
+    }
+    std::cout << line << " => fnv=" << fnv1a(text);
+    if (bad) std::cout << " ORACLE-MISMATCH " << bad << " bits differ from 'no prime in 7..163 properly divides the number'";
+    std::cout << "\n";
+  }
+  return 0;
+}
+
 } // namespace
 
 int main(int argc, char** argv)
@@ -1420,6 +1462,8 @@ int main(int argc, char** argv)
     return streamCalc(in);
   if (stream == "wheel")
     return streamWheel(in);
+  if (stream == "presieve")
+    return streamPreSieve(in);
   if (stream == "cross")
     return streamCross(in);
   if (stream == "cli")
